@@ -4,7 +4,7 @@
 # (or a harness error) to be investigated before anything else.
 OUT=$(mktemp -d /var/tmp/soakq-XXXX)
 for s in $(seq $1 $2); do
-  VERIF_SEED=$s VERIF_OUT_DIR=$OUT/$s /verif/check quick > $OUT/$s.log 2>&1; rc=$?
+  VERIF_SEED=$s VERIF_OUT_DIR=$OUT/$s "$(dirname "$(readlink -f "$0")")/../check" quick > $OUT/$s.log 2>&1; rc=$?
   echo "seed $s rc=$rc $(tail -1 $OUT/$s.log | cut -c1-120)"
   if [ $rc -ne 0 ]; then grep -A1 "^VIOLATION\|^HARNESS" $OUT/$s.log | cut -c1-400; mkdir -p /verif/.work; cp -r $OUT/$s /verif/.work/soak-seed-$s 2>/dev/null; fi
 done
